@@ -74,6 +74,11 @@ any_iter! {
     AC5 / AC5Rev : ks::ArrayChunks<'a, E, 5>, ks::ArrayChunksRev<'a, E, 5> ; item |it: &[E; 5], base: &[E]| w(&it[..], base) ; extra |me: &ks::ArrayChunks<'a, E, 5>, base: &[E]| -> Option<(usize, usize)> { let _ = (me, base); Some(w(me.remainder(), base)) } ;
 }
 
+/// model size -> real size: values >= 100 stand for the neighbourhood of isize::MAX / usize::MAX
+pub fn big(n: usize) -> usize {
+    if n < 100 { n } else { crate::m_sliceindex::p8(n as u64) }
+}
+
 pub fn make<'a>(kind: &str, base: &'a [E], n: usize) -> Option<AnyIt<'a>> {
     Some(match kind {
         "iter" => AnyIt::Iter(ks::iter(base)),
@@ -123,7 +128,7 @@ pub fn replay(s: &mut Summary, v: &V) {
     let n = v["n"].as_u64().unwrap() as usize;
     let basev: Vec<E> = (0..len as E).collect();
     let base: &[E] = &basev;
-    let Some(mut it) = make(kind, base, n) else { s.note("array_chunks N not instantiated"); return };
+    let Some(mut it) = make(kind, base, big(n)) else { s.note("array_chunks N not instantiated"); return };
     for op in v["path"].as_array().unwrap() {
         let r = match op.as_str().unwrap() {
             "next" => it.next(base).map(|x| x.1),
@@ -152,7 +157,7 @@ pub fn replay(s: &mut Summary, v: &V) {
         s.check(&format!("{tag}::as_slice|remainder"), json!([norm(e).0, norm(e).1]), &json!([norm(exp).0, norm(exp).1]));
     }
     // reference vs std on the remaining window (chunks kinds: std over the remaining slice)
-    let (sn, sb) = std_ends(kind, base, lo, hi, n);
+    let (sn, sb) = std_ends(kind, base, lo, hi, big(n));
     let (en, eb) = if fwd { (&v["next"], &v["next_back"]) } else { (&v["next_back"], &v["next"]) };
     s.guard(&format!("std::{kind}::next"), sn, en);
     s.guard(&format!("std::{kind}::next_back"), sb, eb);
@@ -166,11 +171,12 @@ pub fn record(rng: &mut SmallRng, n_events: usize, out: &mut dyn Write) {
         let kind = KINDS[rng.gen_range(0..KINDS.len())];
         let len = rng.gen_range(0..=200usize);
         let n = if kind == "array_chunks" { rng.gen_range(1..=5) } else if kind == "iter" || kind == "copied" { 1 }
-                else { [1, 2, 3, 7, 16, len.max(1), len + 1][rng.gen_range(0..7)] };
+                else { [1, 2, 3, 7, 16, len.max(1), len + 1, usize::MAX - rng.gen_range(0..3usize), isize::MAX as usize + rng.gen_range(0..2usize),
+                       (usize::MAX - len).saturating_add(rng.gen_range(0..3usize))][rng.gen_range(0..10)] };
         let basev: Vec<E> = (0..len as E).collect();
         let base: &[E] = &basev;
         let mut it = make(kind, base, n).unwrap();
-        writeln!(out, "{}", json!({"ev": "init", "kind": kind, "len": len, "n": n})).unwrap();
+        writeln!(out, "{}", json!({"ev": "init", "kind": kind, "len": len, "n": n.min(1_000_000)})).unwrap();
         left -= 1;
         let bias = rng.gen_range(1..10);
         for _ in 0..rng.gen_range(1..400) {
